@@ -4,7 +4,8 @@ import Driver.Util
 
   geom  <readMeta 0|1> <stamp hex> <nv> <nf> <coords u32,..|-> <faces int,..|-> <vol>
         vol = `-` | `head;valid;filename;volume;voxelsize;xras;yras;zras;cras`
-              (head: ints `,`-separated; valid/filename: hex; the six vectors: hex tokens `,`-separated)
+              (head: ints `,`-separated; valid/filename: hex; volume: ints `,`-separated (rendered by the model's
+               `intRepr`, read back through `intsParse`); the five float vectors: hex tokens `,`-separated)
   morph <shape n,..|-> <vals u32,..|-> <fnum>
   annot <origIds 0|1> <fill 0|1> <has5 0|1> <labels int,..|-> <rows r:g:b:t:a;..|-> <names hex;..|->
   annot2 <fill 0|1> <has5 0|1> <labels> <rows> <names> <rgb r:g:b;..|-> <fill2 0|1>
@@ -66,7 +67,7 @@ def parseVol? (s : String) : Option (Option VolInfo) :=
     let h ← parseIntList? h
     let v ← parseHex? v
     let f ← parseHex? f
-    let vol ← parseHexList? "," vol
+    let vol ← (parseIntList? vol).map (·.map intRepr)
     let vox ← parseHexList? "," vox
     let x ← parseHexList? "," x
     let y ← parseHexList? "," y
@@ -81,7 +82,9 @@ def asciiOk (vi : VolInfo) : Bool :=
 def showVol : Option VolInfo → String
   | none => "-"
   | some v => "head=" ++ showList v.head ++ ";valid=" ++ hexOf v.valid ++ ";filename=" ++ hexOf v.filename ++
-      ";volume=" ++ showHexList v.volume ++ ";voxelsize=" ++ showHexList v.voxelsize ++
+      ";volume=" ++ (match intsParse v.volume with
+                     | .ok ints => showList ints
+                     | .error _ => "T" ++ showHexList v.volume) ++ ";voxelsize=" ++ showHexList v.voxelsize ++
       ";xras=" ++ showHexList v.xras ++ ";yras=" ++ showHexList v.yras ++ ";zras=" ++ showHexList v.zras ++
       ";cras=" ++ showHexList v.cras
 
